@@ -11,10 +11,10 @@ CFG = dict(
     trusted=COMMON_TRUSTED + ["go/types (go1.22 language version) as the validity filter of generated programs",
                               "hand-written models Core/GoSem.v (G) and Core/Cfg.v (Y: cfg.go wiring, slot allocation, runCfg), tied by behavioural correspondence on fragment programs (now including switch statements) evaluated inside Coq and by the regenerated if/for/switch-clause wiring tables (tr-wiring, theorem C01_wiring_matches_source)",
                               "the generator's determinism rules (no unspecified evaluation order, no map order, no capacity) and the syntactic region classifier harness/c01regions.go"],
-    level_text="Coq theorem (unbounded: every well-formed MiniGo program, any nesting, any number of iterations) that Go-termination implies termination of yaegi's CFG machine with the same output and ending, by forward simulation G (definitional interpreter) -> Y (start/tnext/fnext wiring of cfg.go, frame slots with the destination-slot shortcut, loopVarFor, runCfg), plus refutation witnesses outside the side conditions; switch statements (tag / no tag, init, case lists, default anywhere, fallthrough, break) are modelled in G and Y (clause loops of switchStmt / switchIfStmt, the default swap, _case) and tied to the source and to yaegi / compiled Go, and the simulation theorem covers switch with a tag (only the first case expression of a clause an operator expression, a leaf tag after an init statement) and without a tag (one condition per clause), with optional init statement, default last, at least one clause, break/continue inside clause bodies; fallthrough is not yet covered by the theorem (wf rejects it); Y and G are evaluated inside Coq on generated fragment programs against real yaegi and the compiled binary; the full core language is covered behaviourally by seeded random programs and a shortcut x statement-form boundary stream against compiled Go.",
+    level_text="Coq theorem (unbounded: every well-formed MiniGo program, any nesting, any number of iterations) that Go-termination implies termination of yaegi's CFG machine with the same output and ending, by forward simulation G (definitional interpreter) -> Y (start/tnext/fnext wiring of cfg.go, frame slots with the destination-slot shortcut, loopVarFor, runCfg), plus refutation witnesses outside the side conditions; switch statements (tag / no tag, init, case lists, default anywhere, fallthrough, break) are modelled in G and Y (clause loops of switchStmt / switchIfStmt, the default swap, _case) and tied to the source and to yaegi / compiled Go, and the simulation theorem covers switch with a tag (only the first case expression of a clause an operator expression, a leaf tag after an init statement) and without a tag (one condition per clause), with optional init statement, default last, at least one clause, fallthrough (not into an empty default clause of a tagless switch), break/continue inside clause bodies; Y and G are evaluated inside Coq on generated fragment programs against real yaegi and the compiled binary; the full core language is covered behaviourally by seeded random programs and a shortcut x statement-form boundary stream against compiled Go.",
     level_note="Trusted: Coq kernel + vm_compute, no axioms; the hand transcription of cfg.go/run.go into Core/Cfg.v (tied by correspondence; the if/for/switch wiring tables additionally by the translator tr-wiring); the harness and generators; the Go toolchain as reference.",
     technique="Coq forward-simulation proof over an executable CFG model + model/implementation correspondence evaluated in Coq + differential testing against compiled Go",
-    assumptions=["the proved fragment is MiniGo (ints, bools, assignments, if, for, break/continue, blocks, Println, switch with or without a tag, without fallthrough); fallthrough is modelled (G, Y, wiring tie, model-vs-implementation cases) but its simulation is not proved; functions, closures, composite data, range, goto and labels are checked behaviourally only",
+    assumptions=["the proved fragment is MiniGo (ints, bools, assignments, if, for, break/continue, blocks, Println, switch with or without a tag, with fallthrough); functions, closures, composite data, range, goto and labels are checked behaviourally only",
                  "constant folding is outside the model: fragment programs contain no constant operator expressions",
                  "termination of yaegi on programs that diverge under Go is not addressed (the property quantifies over terminating programs)"],
 )
